@@ -59,6 +59,9 @@ class Target:
     pin_sigs: int = 5  # how many unlisted signatures get a shrink pass
     time_quick: float = 120.0
     time_thorough: float = 900.0
+    # a callable performing operations that FAIL (see vf/props/_poison.py); when set, a seventh of the generated cases
+    # carries "poison": True and the callable runs right before such a case is evaluated (also on replay)
+    poison: Optional[Callable[[], None]] = None
 
 
 class Guarded(Exception):
@@ -102,10 +105,28 @@ def evaluate(t: "Target", case) -> "Eval":
     """t.evaluate(case); a case the harness itself declares outside the property's domain is a counted discard."""
     from .values import OutOfDomain
 
+    poisoned = t.poison is not None and isinstance(case, dict) and bool(case.get("poison"))
+    if poisoned:
+        t.poison()
     try:
-        return t.evaluate(case)
+        ev = t.evaluate(case)
     except OutOfDomain as e:
         return Eval(discard=str(e))
+    if poisoned:
+        ev.labels = list(ev.labels) + ["after_failed_operations"]
+        for f in ev.failures:
+            if isinstance(f.case, dict):
+                f.case = dict(f.case, poison=True)
+    return ev
+
+
+def strategy_of(t: "Target"):
+    """t.strategy, with the poison flag drawn for a seventh of the (dict) cases when the target has a poison."""
+    if t.poison is None:
+        return t.strategy
+    from hypothesis import strategies as st
+
+    return st.tuples(t.strategy, st.integers(0, 6)).map(lambda tc: dict(tc[0], poison=True) if tc[1] == 0 and isinstance(tc[0], dict) else tc[0])
 
 
 def exc_sig(e: BaseException) -> str:
@@ -290,7 +311,7 @@ def run_target(ctx: Ctx, t: Target):
 
     @seed(ctx.seed * 1000 + ctx.shard)
     @_hyp_settings(n)
-    @given(t.strategy)
+    @given(strategy_of(t))
     def survey(case):
         if time.time() - t0 > tlimit:
             raise _Stop()
@@ -324,7 +345,7 @@ def pin(ctx: Ctx, t: Target, sig: str, first_case) -> Any:
 
     try:
         find(
-            t.strategy,
+            strategy_of(t),
             pred,
             settings=_hyp_settings(max(50, min(t.pin_budget, 2000)), phases=[Phase.generate, Phase.shrink]),
             random=random.Random(ctx.seed * 1000 + ctx.shard),
